@@ -5,6 +5,9 @@ import random, re
 from lang import *
 
 
+NARROW_RANGES = {(t.min, t.max) for t in INT_TYPES}
+
+
 class PatGen:
     def __init__(self, rng):
         self.rng = rng
@@ -25,6 +28,10 @@ class PatGen:
         if ty.signed:
             pts += [-1, -2]
         pts += [self.rng.randint(ty.min, ty.max) for _ in range(3)]
+        # the ends of the narrower integer types (a piece may then span exactly the range of such a type)
+        for b in (8, 16, 32):
+            if b < ty.bits:
+                pts += [1 << b, 1 << b] if not ty.signed else [1 << (b - 1), -(1 << (b - 1)), 1 << b]
         return [p for p in pts if ty.min <= p <= ty.max]
 
     def int_cover(self, ty):
@@ -161,9 +168,15 @@ class PatGen:
         if isinstance(p, PLit) and isinstance(p.ty, TInt):
             if self.chance(0.35):
                 p.suffix = False
+            elif self.chance(0.12):
+                self.alien_suffix(p, p.v, p.v)
         elif isinstance(p, PRange):
             if self.chance(0.35) and (p.lo >= 0 or p.hi < 0):
                 p.suffix = False
+            elif self.chance(0.12) or (p.lo, p.hi if p.inclusive else p.hi - 1) in NARROW_RANGES and self.chance(0.6):
+                self.alien_suffix(p, p.lo, p.hi if p.inclusive else p.hi - 1)
+                if not p.inclusive and getattr(p, "sfx_ty", None) is not None and p.hi > p.sfx_ty.max:
+                    del p.sfx_ty  # the exclusive end itself must be writable in the suffix type
         elif isinstance(p, PTup):
             for q in p.ps:
                 self.unsuffix(q)
@@ -173,6 +186,17 @@ class PatGen:
         elif isinstance(p, PEnum):
             for q in p.ps:
                 self.unsuffix(q)
+
+    def alien_suffix(self, p, lo, hi):
+        """write the literals with the suffix of another integer type that can hold them (preferably one whose own
+        MIN / MAX coincide with a bound): the pattern still denotes the same numbers for the scrutinee's type"""
+        # (a signed-suffixed literal is a type error against an unsigned scrutinee; the other combinations are accepted)
+        cands = [t for t in INT_TYPES if t.name != p.ty.name and t.min <= lo and hi <= t.max and (p.ty.signed or not t.signed)]
+        if not cands:
+            return
+        both = [t for t in cands if t.min == lo and t.max == hi]
+        edge = [t for t in cands if t.min == lo or t.max == hi]
+        p.sfx_ty = self.rng.choice(both if both else (edge if edge and self.chance(0.7) else cands))
 
     def arms(self, ty):
         arms = self._arms(ty)
